@@ -32,11 +32,14 @@ vars == <<in, g, n, lx>>
 Delims == IF Impl = "colon" THEN {123, 125, 59, 44, 62, 58} ELSE {123, 125, 59, 44, 62}     \* cssIsDelim
 
 RECURSIVE CScan(_, _)        \* for i+1 < n && !(src[i] == '*' && src[i+1] == '/') { i++ }
-CScan(t, j) == IF j + 1 <= Len(t) /\ ~(t[j] = 42 /\ t[j + 1] = 47) THEN CScan(t, j + 1) ELSE j
+CScan(t, j) == LET k == FirstIn(t, j, {42}) IN                        \* (the loop, jumping from * to *)
+                 IF k + 1 <= Len(t) THEN (IF t[k + 1] = 47 THEN k ELSE CScan(t, k + 1))
+                 ELSE IF j <= Len(t) THEN Len(t) ELSE j
 
 RECURSIVE SScan(_, _, _)     \* for i < n && src[i] != c { if src[i] == '\\' && i+1 < n { i += 2 } else { i++ } }
-SScan(t, j, q) == IF j > Len(t) \/ t[j] = q THEN j
-                  ELSE IF t[j] = 92 /\ j + 1 <= Len(t) THEN SScan(t, j + 2, q) ELSE SScan(t, j + 1, q)
+SScan(t, j0, q) == LET j == FirstIn(t, j0, {q, 92}) IN
+                     IF j > Len(t) \/ t[j] = q THEN j
+                     ELSE IF j + 1 <= Len(t) THEN SScan(t, j + 2, q) ELSE SScan(t, j + 1, q)
 
 MinOf(a, b) == IF a < b THEN a ELSE b
 
